@@ -20,6 +20,10 @@
                      brSkipStr, skipBRAt, skipBR (C02 C03 C08 C17)
     Funcs/Dec        BytesSkipDecoder.SkipN/Reset/Next = bytesBackend / bytesDecNext; SkipDecoder.SkipN/Next over the reader model
                      = bufioxBackend / bufioxDecNext, through the generalised template simulation Funcs/TplG (C02 C03 C08)
+    Funcs/FcW        base.Base / base.BaseResp BLength, FastWrite, FastWriteNocopy and Binary.WriteStringNocopy/WriteBinaryNocopy
+                     = bLength*, fastWrite*, fastWriteNocopy*, writeStringNocopy for every map iteration order, nil receiver, nil or real NocopyWriter (C11 C15)
+    Funcs/TTHEncode  ttheader WriteByte/Uint16/Uint32/String/String2BLen, writeKVInfo, Encode over an abstract bufiox.Writer
+                     = TTH.write*, writeKVInfo, encode over the writer log, for every iteration order of both maps (C06)
     Funcs/BufioxR    bufiox.DefaultReader (reset, acquire, acquireSlow, Next, Peek, Skip, ReadLen, ReadBinary, Release, maxSizeStats) translated by
                      extract/bufiox.go (slices WITH capacity: Base/GoSemCap) simulates the reader model Rd of Model/Reader (C04)
     Funcs/BufioxW    bufiox.DefaultWriter (acquire, acquireSlow, Malloc, WriteBinary, WrittenLen, Flush) simulates the writer model (C05)
@@ -37,6 +41,8 @@ import Verif.Lemmas.Funcs.StreamW
 import Verif.Lemmas.Funcs.StreamR
 import Verif.Lemmas.Funcs.StreamSkip
 import Verif.Lemmas.Funcs.Dec
+import Verif.Lemmas.Funcs.FcW
+import Verif.Lemmas.Funcs.TTHEncode
 import Verif.Lemmas.Funcs.BufioxR
 import Verif.Lemmas.Funcs.BufioxW
 namespace Verif.FuncsEq
